@@ -1447,7 +1447,7 @@ QUOTES = ("'", '"')
 
 
 def _pre(text: str) -> str:
-    """the characters of a spelling before its first quote character (the loop of processing.py:186-198)"""
+    """the characters of a spelling before its first quote character (the loop of processing.py:183-195)"""
     for k, ch in enumerate(text):
         if ch in QUOTES:
             return text[:k]
